@@ -111,7 +111,8 @@ TEXTS["C19"] = {
 TEXTS["C09"] = {
     "text": "Proved on the model of PersistExecutionResult and the getters for every consistent node and every block: the persisted block has height head+1 and the previous head hash as parent, the chain meta names "
             "it with the cumulative interchain count (C09_persist_links), it is found by height in both modes, by hash, by the height index, with its interchain meta and tx count (C09_persist_lookup), consistency "
-            "is preserved and the append never goes out of order (C09_persist_consistent, C09_persist_total). Rollback cleaning and tx/receipt lookups are decided by model correspondence on the real "
+            "is preserved and the append never goes out of order (C09_persist_consistent, C09_persist_total); after RollbackBlockChain(t) no block (either mode), height index entry or transaction count above t is found and the "
+            "chain meta names t (C09_rollback_clears_above_target, C09_ledger_rollback_clears_above_target; exact characterisation of the loop in Proofs/ChainRollback.lean). By-hash / by-transaction cleaning and tx/receipt lookups are decided by model correspondence on the real "
             "ledger (LevelDB + blockfile) and a model-free monitor that queries every getter for every known height/hash/tx after rollbacks. Two defects found here were repaired by fix: commits (GetBlockHash decoding; "
             "stale block-height entry after rollback).",
     "note": TB + " Block hashes are symbolic in the model; header hashing and the Merkle roots are covered by C10.",
